@@ -146,6 +146,75 @@ def recount_oracle(c):
     return problems
 
 
+def _fresh(c):
+    """The same circuit object state, but with every Gate object distinct and shared with nothing else."""
+    import copy
+    ref = copy.deepcopy(c)
+    ref._gates = [copy.deepcopy(g) for g in ref._gates]
+    if hasattr(ref, "_variational_gates"):
+        ref._variational_gates = [g for g in ref._gates if g.is_variational]
+    return ref
+
+
+PROBES = ("reindex", "merge", "redundant", "simplify", "trim", "add_gate")
+
+
+def _apply_probe(c, probe):
+    from tangelo.linq import Gate
+    if probe == "reindex":
+        idx = sorted(c._qubit_indices)
+        c.reindex_qubits(list(reversed(idx)))
+    elif probe == "merge":
+        c.merge_rotations()
+    elif probe == "redundant":
+        c.remove_redundant_gates()
+    elif probe == "simplify":
+        c.simplify()
+    elif probe == "trim":
+        c.trim_qubits()
+    else:
+        c.add_gate(Gate("X", 0))
+
+
+def alias_probe(store, new_idx, kind):
+    """Object sharing is not observable by itself; it becomes a violation when a later IN-PLACE operation on one
+    circuit changes another one, or gives another result than on a circuit made of fresh objects.  After an
+    out-of-place operation produced store[k], replay each in-place probe on a deep copy of the whole store (deepcopy
+    keeps the sharing structure): every other circuit must stay as it was, and the probed circuit must equal the
+    same probe applied to a reconstruction from fresh Gate objects."""
+    import copy
+    out = []
+    for k in new_idx:
+        for probe in PROBES:
+            st = copy.deepcopy(store)
+            try:
+                ref = _fresh(st[k])
+            except Exception:
+                continue
+            snaps = [snapshot(c) for c in st]
+            try:
+                _apply_probe(ref, probe)
+                ref_snap = snapshot(ref)
+                ref_err = None
+            except Exception as e:
+                ref_snap, ref_err = None, type(e).__name__
+            try:
+                _apply_probe(st[k], probe)
+                got, err = snapshot(st[k]), None
+            except Exception as e:
+                got, err = None, type(e).__name__
+            others = [i for i in range(len(st)) if i != k and snapshot(st[i]) != snaps[i]]
+            if others:
+                out.append(("C11/%s/then-%s/other-circuit-changed" % (kind, probe),
+                            "after %s produced circuit %d, the in-place %s on it changed circuit(s) %s: %s -> %s" % (
+                                kind, k, probe, others, snaps[others[0]], snapshot(st[others[0]]))))
+            elif (err, got) != (ref_err, ref_snap):
+                out.append(("C11/%s/then-%s/result-depends-on-object-sharing" % (kind, probe),
+                            "after %s produced circuit %d (%s), the in-place %s gives %s but %s on the same circuit built from fresh gates" % (
+                                kind, k, snaps[k], probe, got or err, ref_snap or ref_err)))
+    return out
+
+
 def run_history_impl(ops, want_model_ops=True):
     """Run on the real classes.  Returns (per-step strings, model op terms, evaluable, oracle findings)."""
     from tangelo.linq import Circuit, Gate
@@ -260,6 +329,9 @@ def run_history_impl(ops, want_model_ops=True):
                 except Exception:
                     pass        # a read may legitimately refuse (e.g. mixed state without shots); only its effect on the circuit matters
             out = "Ok"
+            if len(store) > len(before):
+                # ---- oracle 3: the new circuit(s) share nothing observable with the rest of the store
+                findings.extend(alias_probe(store, list(range(len(before), len(store))), kind))
         except Exception as e:
             out = "Err:" + type(e).__name__
         strs = []
